@@ -97,6 +97,11 @@ class FakeSocket(object):
         self.closed = False
         self.connect_ok = connect_ok
         self.cov = cov
+        # stream mode (family "mixed"): the peer's byte stream is held by the socket; a recv script entry
+        # {"n": k, "so": b} hands out the NEXT k unread bytes, so bytes that no recv asked for stay queued
+        # (nothing dropped, nothing reordered).  `recv_log` = the concrete answers actually given.
+        self.stream = None      # [bytes, pos] shared by all sockets of one case
+        self.recv_log = []
 
     # plumbing
     def fileno(self):
@@ -150,6 +155,15 @@ class FakeSocket(object):
             self.cov["recv:script-end-eagain"] = self.cov.get("recv:script-end-eagain", 0) + 1
             raise _sockerr(errno.EAGAIN)
         r = self.recvs.pop(0)
+        if isinstance(r, dict):
+            data_all, pos = self.stream
+            k = min(r["n"], n, len(data_all) - pos)
+            if k <= 0:          # the peer has written nothing more yet
+                r = "a"
+            else:
+                self.stream[1] = pos + k
+                r = [data_all[pos:pos + k].hex(), bool(r["so"])]
+        self.recv_log.append(r)
         if r == "a":
             self.cov["recv:eagain"] = self.cov.get("recv:eagain", 0) + 1
             raise _sockerr(errno.EWOULDBLOCK)
@@ -280,10 +294,12 @@ class Env(object):
 
         self.clock[0] = case["init"]["now"]
         sock = None
+        stream = [case["_stream"], 0] if "_stream" in case else None
         kw = dict(onMessageReceived=on_msg, onDisconnected=on_disc, onConnected=on_conn,
                   timeout=case["timeout"], recvBufferSize=case.get("recvbuf", 2 ** 13))
         if case["init"]["sock"]:
             sock = FakeSocket(self.cov)
+            sock.stream = stream
             self.last_sock[0] = sock
             conn = tc.TcpConnection(poller, socket=sock, **kw)
         else:
@@ -306,12 +322,19 @@ class Env(object):
                     if sock is not None:
                         sock.sends = list(ev["s"])
                         sock.recvs = list(ev["r"])
+                        sock.recv_log = []
                         sock.so_next = bool(ev["so"])
                     flags["oc"] = bool(ev["oc"])
                     mask = (POLL.READ if ev["rd"] else 0) | (POLL.WRITE if ev["wr"] else 0) | \
                            (POLL.ERROR if ev["er"] else 0)
                     descr = last_fd[0] if ev["d"] else 99999
-                    conn._TcpConnection__processConnection(descr, mask)
+                    try:
+                        conn._TcpConnection__processConnection(descr, mask)
+                    finally:
+                        if any(isinstance(x, dict) for x in ev["r"]):
+                            # stream mode: the case now records the answers the socket really gave in this
+                            # event (this is what the model and any replay get); unread bytes stay in the stream
+                            ev["r"] = list(sock.recv_log) if sock is not None else []
                 elif k == "disc":
                     conn.disconnect()
                 elif k == "conn":
@@ -319,6 +342,7 @@ class Env(object):
                     self.connect_ok[0] = bool(ev["ok"])
                     conn.connect("127.0.0.1", 4321)
                     sock = self.last_sock[0]
+                    sock.stream = stream
                     if conn.fileno() is not None:
                         last_fd[0] = conn.fileno()
                 else:
@@ -711,7 +735,7 @@ def gen_mixed(env, rng, n):
             add_msg(env, c, i)
         if peer_ids and rng.random() < 0.25:
             c["cbdisc"] = [rng.choice(peer_ids)]
-        pos = 0
+        c["_stream"] = stream
         sent = []
         for _ in range(rng.randrange(1, 12)):
             now += rng.choice([0, 1, 1, 1, 2, timeout, timeout + 1]) if rng.random() < 0.9 else 0
@@ -725,10 +749,9 @@ def gen_mixed(env, rng, n):
                 recvs = []
                 for _ in range(rng.randrange(0, 4)):
                     q = rng.random()
-                    if q < 0.8 and pos < len(stream):
+                    if q < 0.8:
                         nby = min(rng.choice([1, 2, 3, 4, 5, 9, 30, 200, c["recvbuf"]]), c["recvbuf"])
-                        recvs.append([stream[pos:pos + nby].hex(), rng.random() < 0.03])
-                        pos += nby
+                        recvs.append({"n": nby, "so": rng.random() < 0.03})
                     elif q < 0.86:
                         recvs.append("a")
                     elif q < 0.9:
